@@ -1,6 +1,6 @@
 """C17 — Array and typed-array methods (structural clauses only)."""
 
-from ..rules import builtins, exceptions, optargs, tables
+from ..rules import builtins, exceptions, optargs, tables, textparse
 
 FAMILIES = set("array,typed_array".split(","))
 PREFIXES = "_make_array_method|_make_typed_array_method|_create_array_constructor|_create_typed_array_constructor|_create_arraybuffer_constructor|JSArray|JSTypedArray|JSInt|JSUint|JSFloat".split("|")
@@ -35,3 +35,4 @@ def run(ctx, rep):
     optargs.rule_missing_is_undefined(ctx, rep, "C17-R16", lambda f: _in_family(f.qual), "the Array, typed-array and ArrayBuffer methods and constructors", floor=6)
     builtins.rule_integral_double_printing(ctx, rep, "C17-R17")
     builtins.rule_array_elements_to_text(ctx, rep, "C17-R18")
+    textparse.rule_backward_search_start(ctx, rep, "C17-R19")
